@@ -330,17 +330,10 @@ impl Node {
         if !is_oplog_valid {
             nundb::disk_ops::Oplog::clean_op_log_metadata_files();
         }
-        let dbs = Arc::new(Databases::new(
-            USER.to_string(),
-            PWD.to_string(),
-            addr.to_string(),
-            addr.to_string(),
-            sup_sender,
-            replication_sender,
-            keys_map,
-            process_id,
-            is_oplog_valid,
-        ));
+        // main.rs builds the node through db_ops::create_init_dbs (which stamps the wall-clock start time as
+        // process id); the harness calls the same function and then sets the process id the scenario asks for
+        let mut dbs = nundb::db_ops::create_init_dbs(USER.to_string(), PWD.to_string(), addr.to_string(), addr.to_string(), sup_sender, replication_sender, keys_map, is_oplog_valid);
+        Arc::get_mut(&mut dbs).expect("a freshly created Databases has one owner").process_id = process_id;
         Databases::load_all_dbs(&dbs);
         REGISTRY.lock().unwrap().push((Arc::as_ptr(&dbs) as usize, ctx.clone()));
         Node {
